@@ -383,9 +383,12 @@ func runCase(cs *Case, ci int, pty *ptyPair, em *emu, home string) (alive bool) 
 	dumpSources := func() map[string]any {
 		out := map[string]any{}
 		if len(srcs) == 0 {
-			if cur := rl.History.Current(); cur != nil {
-				out["default"] = dumpLines(cur)
-			}
+			func() {
+				defer func() { recover() }() // (observation only: what the accessor does is not what is being judged here)
+				if cur := rl.History.Current(); cur != nil {
+					out["default"] = dumpLines(cur)
+				}
+			}()
 		}
 		for _, b := range srcs {
 			out[b.name] = dumpLines(b.src)
@@ -635,7 +638,27 @@ func runCase(cs *Case, ci int, pty *ptyPair, em *emu, home string) (alive bool) 
 				switch a.K {
 				case "histdel":
 					rl.History.Delete(a.S)
+					for i, b := range srcs {
+						if b.name == a.S {
+							srcs = append(srcs[:i:i], srcs[i+1:]...)
+							break
+						}
+					}
 					logj(map[string]any{"ev": "api", "c": cs.ID, "s": si, "what": "History.Delete", "arg": a.S})
+				case "histdelall":
+					rl.History.Delete()
+					srcs = nil
+					logj(map[string]any{"ev": "api", "c": cs.ID, "s": si, "what": "History.Delete", "arg": "*"})
+				case "histadd":
+					src := readline.NewInMemoryHistory()
+					for _, l := range strings.Split(a.H, "|") {
+						if l != "" {
+							src.Write(l)
+						}
+					}
+					rl.History.Add(a.S, src)
+					srcs = append(srcs, boundSrc{a.S, src, nil})
+					logj(map[string]any{"ev": "api", "c": cs.ID, "s": si, "what": "History.Add", "arg": a.S})
 				case "rebind":
 					if parts := strings.SplitN(a.S, "|", 2); len(parts) == 2 {
 						rl.Config.Bind(parts[0], string(unhex(a.H)), parts[1], a.N == 1)
